@@ -16,6 +16,7 @@ import (
 	"pgregory.net/rapid"
 
 	"verifharness/ev"
+	"verifharness/gen"
 	"verifharness/vread"
 )
 
@@ -81,13 +82,8 @@ type ifaceInfo struct {
 	method string
 }
 
-func (g *dgen) pick(label string, n int) int {
-	if n <= 1 {
-		return 0
-	}
-	return rapid.IntRange(0, n-1).Draw(g.t, label)
-}
-func (g *dgen) chance(label string, pct int) bool { return rapid.IntRange(0, 99).Draw(g.t, label) < pct }
+func (g *dgen) pick(label string, n int) int          { return gen.Uniform(g.t, label, n) }
+func (g *dgen) chance(label string, pct int) bool { return gen.Chance(g.t, label, pct) }
 
 func (g *dgen) add(d Decl) {
 	// dedupe deps
